@@ -218,9 +218,9 @@ def genAck (s : State) (pn largest delay cap : Nat) : State × GenOut :=
     if k ≥ 2 ^ 32 then (s, .overflow)
     else
       let rev := (s.cells.take k).reverse
-      let (out, visited) := genFrame largest delay cap (rev.map fun c => !c.isEmpty)
-      let cells' := (mapFirst (Cell.track pn) visited rev).reverse ++ s.cells.drop k
-      match out with
+      let gf := genFrame largest delay cap (rev.map fun c => !c.isEmpty)
+      let cells' := (mapFirst (Cell.track pn) gf.2 rev).reverse ++ s.cells.drop k
+      match gf.1 with
       | .ok fr =>
         ({ s with cells := cells', incl := insertSorted pn s.incl,
                   earliest := match s.earliest with
